@@ -23,7 +23,8 @@ def jobs(tier):
                     out.append(J(et, list(s), 2))
             for s in itertools.product((0, 1), repeat=3):
                 out.append(J(et, list(s), 2 if s[0] <= s[1] <= s[2] else 1))
-            out += [J(et, [0, 2, 4], 1), J(et, [1, 3, 5], 1), J(et, [1 - et, 1 - et, 1 - et, et], 1)]
+            out += [J(et, [0, 2, 4], 1), J(et, [1, 3, 5], 1)]
+        # four other entries: in the thorough tier only (one quadruple takes minutes of solver time)
         return out
     for et in (0, 1):
         out.append(J(et, [], 1))
